@@ -24,7 +24,7 @@ func c20Jobs(tier string, seed int64) []string {
 		"index:1:1", "index:3:2", "index:0.25:3",
 		"far:0", "far:3",
 		"mass:2:1:2", "desc:1:3", "desc:0.25:2",
-		"add:2:1:1", "add2d:1:1:1", "index2d:1:0", "index2d:1:0:0.5:2", "index2d:1:2:1:1",
+		"add:2:1:1", "addneg:2:1:1", "add2d:1:1:1", "add2dneg:1:1:1", "index2d:1:0", "index2d:1:0:0.5:2", "index2d:1:2:1:1",
 	}
 	if tier == "thorough" {
 		jobs = append(jobs, "index:1:0", "index:10:3", "index:0.5:5", "index:1:8", "index:3:16", "index:10:30", "far:1", "far:8",
@@ -76,6 +76,15 @@ func inBin(x, start, size float64, count, j int) bool {
 	default:
 		return sym.And(x >= start+float64(j-1)*size, x < start+float64(j)*size)
 	}
+}
+
+// c20Weight: power-of-two weights (every subset has its own sum); the neg variants alternate the sign.
+func c20Weight(kind string, i int) float64 {
+	w := float64(int(1) << uint(i))
+	if strings.HasSuffix(kind, "neg") && i%2 == 0 {
+		return -w
+	}
+	return w
 }
 
 func c20Run(job string) {
@@ -209,13 +218,13 @@ func c20Run(job string) {
 				sym.Assert(float64(mx.(value.Float)) == start+float64(j)*size, "descr-max")
 			}
 		}
-	case "add":
+	case "add", "addneg":
 		n, size, count := atoi(parts[1]), atof(parts[2]), atoi(parts[3])
 		start := grid("start")
 		var items []value.Value
 		for i := 0; i < n; i++ {
 			x := grid("x" + strconv.Itoa(i))
-			items = append(items, value.NewMap(value.RealMap{"x": value.Float(x), "w": value.Float(float64(int(1) << uint(i)))}))
+			items = append(items, value.NewMap(value.RealMap{"x": value.Float(x), "w": value.Float(c20Weight(parts[0], i))}))
 		}
 		whole := mustGen(fg, "l.binning(start,size,count,e->e.x,e->e.w).values", "l", "start", "size", "count")
 		parts2 := mustGen(fg, "[a.binning(start,size,count,e->e.x,e->e.w),b.binning(start,size,count,e->e.x,e->e.w)].collectBinning().values",
@@ -280,13 +289,13 @@ func c20Run(job string) {
 			}
 		}
 		sym.Assert(hits == 1, "exactly-one-cell")
-	case "add2d":
+	case "add2d", "add2dneg":
 		n, size, count := atoi(parts[1]), atof(parts[2]), atoi(parts[3])
 		start := grid("start")
 		var items []value.Value
 		for i := 0; i < n; i++ {
 			x, y := grid("x"+strconv.Itoa(i)), grid("y"+strconv.Itoa(i))
-			items = append(items, value.NewMap(value.RealMap{"x": value.Float(x), "y": value.Float(y), "w": value.Float(float64(int(1) << uint(i)))}))
+			items = append(items, value.NewMap(value.RealMap{"x": value.Float(x), "y": value.Float(y), "w": value.Float(c20Weight(parts[0], i))}))
 		}
 		b := "binning2d(start,size,count,start,size,count,e->e.x,e->e.y,e->e.w)"
 		whole := mustGen(fg, "l."+b+".values.map(r->r.row)", "l", "start", "size", "count")
@@ -314,7 +323,11 @@ func c20Run(job string) {
 				}
 			}
 		}
-		sym.Assert(total == float64(int(1)<<uint(n))-1, "mass-conserved-2d")
+		wantTotal := 0.0
+		for i := 0; i < n; i++ {
+			wantTotal += c20Weight(parts[0], i)
+		}
+		sym.Assert(total == wantTotal, "mass-conserved-2d")
 	default:
 		panic("c20: unknown job " + job)
 	}
